@@ -75,6 +75,8 @@ class Analyzer:
                 return LV(elem=H.obj(name, tv.elem.classes, generic=True))
         if self.is_projective(classes):
             return H.obj(name, classes, generic=self.is_polytope(classes))
+        if not is_self and any(self.prog.classes[q].name == "Tensor" for q in classes if q in self.prog.classes):
+            return H.obj(name, frozenset(), generic=False)  # `Tensor | ArrayLike` operands are usually projective objects
         return UNT
 
     # ------------------------------------------------------------------ sinks
@@ -98,7 +100,11 @@ class Analyzer:
             env[p.arg] = self.param_value(fn, p.arg, p.annotation, is_self)
         if a.vararg:
             tv = self.te.from_annotation(fn.module, a.vararg.annotation, fn, fn.cls)
-            env[a.vararg.arg] = LV(elem=H.obj(a.vararg.arg, tv.classes, generic=True)) if self.is_projective(tv.classes) else LV(elem=UNT)
+            tensorish = self.is_projective(tv.classes) or any(self.prog.classes[q].name == "Tensor" for q in tv.classes if q in self.prog.classes)
+            if tensorish and fn.name not in ("__init__", "__new__"):
+                env[a.vararg.arg] = LV(elem=H.obj(a.vararg.arg, tv.classes if self.is_projective(tv.classes) else frozenset(), generic=True))
+            else:
+                env[a.vararg.arg] = LV(elem=UNT)
         if a.kwarg:
             env[a.kwarg.arg] = OTHER
         return self.run_fn(fn, env, root=True)
@@ -321,7 +327,11 @@ class Interp:
         elif isinstance(target, ast.Subscript) and isinstance(target.value, ast.Name):
             old = env.get(target.value.id)
             if isinstance(old, HV) and isinstance(v, (HV, OV)):
-                nv = H.join(old, as_hv(v)) if (old.tainted or as_hv(v).tainted) else old
+                new = collapse(as_hv(v))
+                if old.ones and not old.tainted and new.tainted and not new.top and not new.mixed and not (new.parts or new.cols):
+                    nv = replace(new, mixed=f"raw homogeneous data ({new.describe()}) stored next to non-zero constants of an identity/ones matrix", proj=True)
+                else:
+                    nv = H.join(old, new) if (old.tainted or new.tainted) else old
                 env[target.value.id] = nv
         # attribute stores are irrelevant for degrees
 
@@ -685,10 +695,11 @@ class Interp:
         out = None
         for f in impls[:6]:
             tv = self.an.te.from_annotation(f.module, f.node.returns, f, f.cls)
+            argl = ("," + ",".join(lab(a) for a in call[0])) if call is not None and call[0] else ""
             if tv.classes and self.an.is_projective(tv.classes):
-                r = H.opaque(f"{name}({v.label})", tv.classes)
+                r = H.opaque(f"{name}({v.label}{argl})"[:160], tv.classes)
             elif tv.elem is not None and tv.elem.classes and self.an.is_projective(tv.elem.classes):
-                r = LV(elem=H.opaque(f"{name}({v.label})[]", tv.elem.classes))
+                r = LV(elem=H.opaque(f"{name}({v.label}{argl})[]"[:160], tv.elem.classes))
             else:
                 src = ast.unparse(f.node.returns) if f.node.returns is not None else ""
                 if "bool" in src:
@@ -965,7 +976,9 @@ class Interp:
             return self.P(H.power(a0, n), a0)
         if name in ("zeros", "zeros_like"):
             return HV(zero=True, const=0)
-        if name in ("ones", "ones_like", "eye", "identity", "empty", "empty_like", "arange", "indices", "triu_indices", "tril_indices", "full",
+        if name in ("ones", "eye", "identity"):
+            return HV(ones=True)
+        if name in ("ones_like", "empty", "empty_like", "arange", "indices", "triu_indices", "tril_indices", "full",
                     "unravel_index", "ravel_multi_index", "promote_types", "dtype", "issubdtype", "common_type", "spacing", "ndindex", "errstate",
                     "vectorize", "fromfunction", "broadcast", "linspace", "int8", "int_", "float64", "complex128", "bool_"):
             return UNT
@@ -1026,12 +1039,15 @@ class Interp:
             if name in self.UNT_FUNCS:
                 return HV(proj=True)
             if name in self.OBJ_FUNCS:
-                lab = f"{name}({', '.join(getattr(a, 'label', '?') if isinstance(a, OV) else '..' for a in flat)[:40]})"
+                label = f"{name}({','.join(lab(a) for a in flat)})"[:160]
                 if name in ("translation", "rotation", "reflection", "scaling", "identity", "affine_transform", "infty_hyperplane"):
-                    return OV(arr=UNT, label=lab)
+                    if name in ("translation", "affine_transform"):
+                        r = self.call_fn(fn2, None, (args, kws), e)
+                        return r if isinstance(r, OV) else OV(arr=UNT, label=label)
+                    return OV(arr=UNT, label=label)
                 if name == "angle_bisectors":
-                    return LV(elem=H.opaque(lab))
-                return H.opaque(lab)
+                    return LV(elem=H.opaque(label))
+                return H.opaque(label)
             if name == "det":
                 raw = flat[0] if flat else None
                 if isinstance(raw, LV) and raw.items is not None and not any(isinstance(x, tuple) for x in raw.items):
@@ -1123,7 +1139,7 @@ class Interp:
         if m.is_classmethod:
             tv = self.an.te.from_annotation(m.module, m.node.returns, m, k)
             if tv.classes and self.an.is_projective(tv.classes):
-                return H.opaque(f"{k.name}.{name}(..)", tv.classes)
+                return H.opaque(f"{k.name}.{name}({','.join(lab(a) for a in args)})"[:160], tv.classes)
             return OTHER
         if args:
             recv = args[0]
@@ -1160,10 +1176,10 @@ class Interp:
                 return recv
             if name in ("join", "meet", "project", "perpendicular", "parallel", "mirror", "tangent", "polar", "apply", "inverse", "intersect",
                         "from_points", "__apply__"):
-                lab = f"{recv.label}.{name}(..)"
+                label = f"{recv.label}.{name}({','.join(lab(a) for a in args)})"[:160]
                 if name == "intersect":
-                    return LV(elem=H.opaque(lab))
-                return H.opaque(lab)
+                    return LV(elem=H.opaque(label))
+                return H.opaque(label)
             return self.member(recv, name, e, call=(args, kws))
         if isinstance(recv, HV):
             a0 = as_hv(args[0]) if args else UNT
@@ -1204,6 +1220,9 @@ class Interp:
         pointlike = self.prog.find_cls("PointTensor") is not None and self.prog.is_subclass(k, self.prog.cls("PointTensor"))
         if starred and len(args) == 1:
             v = args[0][1]
+            ev = elem_of(v) if isinstance(v, LV) else v
+            if isinstance(ev, OV):
+                return OV(arr=ev.arr, finite=ev.finite, types=types, label=ev.label)  # Point(*[point]) copies the point
             h = as_hv(v)
             text = ast.unparse(e)[:80]
             if pointlike and h.proj:
@@ -1227,6 +1246,13 @@ class Interp:
             if isinstance(v, OV):
                 return OV(arr=v.arr, finite=v.finite, types=types, label=v.label)
             h = as_hv(v)
+            if h.mixed and self.fn.name not in ("__init__", "__new__"):
+                text = ast.unparse(e)[:80]
+                ctx = " (reached from " + " <- ".join(q.rsplit(".", 1)[-1] for q in reversed(self.an.stack[:-1])) + ")" if len(self.an.stack) > 1 else ""
+                self.an.sink("E5.object", self.fn, self.cur_stmt(e), VIOLATION,
+                             f"`{text}` builds a projective object from an array that is not homogeneous: {h.mixed}{ctx}; the object depends on the "
+                             f"representative of the argument, not on the argument", {"mixed": h.mixed})
+                return OV(arr=TOP("object built from an inhomogeneous array"), types=types, label=f"{k.name}(..)")
             if pointlike and h.tainted and not (h.parts):
                 text = ast.unparse(e)[:80]
                 if h.top:
@@ -1241,7 +1267,7 @@ class Interp:
             for a in args:
                 g = H.join(g, as_hv(a))
             return OV(arr=g if g is not None else UNT, finite=True, types=types, label=k.name)
-        return H.opaque(f"{k.name}(..)", types)
+        return H.opaque(f"{k.name}({','.join(lab(a) for a in args)})"[:160], types)
 
 
 def collapse(h: HV) -> HV:
@@ -1252,6 +1278,21 @@ def collapse(h: HV) -> HV:
             out = H.join(out, as_hv(x))
         return out if out is not None else UNT
     return h
+
+
+def lab(v) -> str:
+    """label of a value for opaque symbols: built from the labels of the operands, never from variable names"""
+    if isinstance(v, OV):
+        return v.label or v.arr.describe()
+    if isinstance(v, HV):
+        return v.describe() if v.tainted else "c"
+    if isinstance(v, LV):
+        if v.items is not None:
+            return "[" + ",".join(lab(x[1] if isinstance(x, tuple) and x and x[0] == "star" else x) for x in v.items[:6]) + "]"
+        return "[" + lab(v.elem) + "..]"
+    if isinstance(v, tuple) and v and v[0] == "star":
+        return "*" + lab(v[1])
+    return "_"
 
 
 def join_all(vals):
